@@ -41,6 +41,46 @@ CLAIMS = {
    text="Narrow claim: decides that every write of Loop.bound / Polygon.bound is followed on every non-error path by subregionBound = ExpandForSubregions(bound) (or the same full/empty rectangle), and that containment is never rejected through the plain bound. This is the 'bound grown for sub-regions' clause only.",
    note="Does not decide the sufficiency of the rect-bounder error constants, cap/cell bounds, or convex hulls (numeric).",
    design="DESIGN.md section 3 R-PAIR/R-BOUNDGUARD, section 4 C10"),
+ "C01": dict(
+   technique="static analysis: constant evaluation of data tables and six-way case tables (go/constant + AST), mirrored-code comparison, global-write scan, error-constant folding",
+   text="Narrow claim: the Hilbert-order tables, orientation bits, six face frames with their projection / un-projection / transpose / edge-normal case tables and the bit-interleave tables are mutually consistent (all entries evaluated from the source); lookup tables are written only during initialisation; the mirrored u/v clamps of the neighbour wrap and the re-checks of AdvanceWrap stay mirrored; containment margin and uv error are not weakened. Exhaustive over the table entries, which are finite.",
+   note="Does not decide any clause about concrete ids/points (leaf containment, neighbour adjacency, round trips, range partition): identities of 64-bit and float arithmetic over all inputs.",
+   design="DESIGN.md section 3 R-TABLE/R-MIRROR/R-GLOBAL/R-CONST, section 4 C01"),
+ "C02": dict(
+   technique="static analysis: AST rule for unfused products, edge-dominance checks of the predicate staging over go/ssa, polynomial extraction of the symbolic-perturbation sequence compared with the simulation-of-simplicity coefficient sequence, error-constant folding",
+   text="Decides that the machinery the exactness argument relies on is in place: every product in r3.Vector.Dot/Cross is explicitly converted (no FMA), no error bound is smaller than its derived value, floating-point stages answer only strictly beyond their bound, stages are ordered (exact stage exactly when earlier stages are undecided), each argument swap in exactSign is paired with a sign flip, sign products are taken only for equal signs, and symbolicallyPerturbedSign tests exactly the 13 coefficients of one fixed perturbation in order and never returns zero.",
+   note="Trusts the published derivations of the error bounds and math/big. Does not decide results on concrete tuples.",
+   design="DESIGN.md section 3 R-FMA/R-STAGES/R-SOS/R-CONST, section 4 C02"),
+ "C03": dict(
+   technique="static analysis: all-paths state-update (must-update-before-return) analysis with closure capture check, enum outcome folding, error-constant folding over go/ssa",
+   text="Decides that the incremental crosser cannot carry stale state: every exit of RestartAt / ChainCrossingSign / crossingSign updates the cached vertex and orientation (deferred closure must capture the variable), the vertex-crossing fallback reads the chain vertex before the call that advances it, the three-valued result is consumed as DoNotCross->false, Cross->true, MaybeCross->VertexCrossing, MaybeCross is returned only behind an endpoint equality, and the tangent rejection bound is not weakened.",
+   note="Does not decide the numeric result on concrete quadruples or symmetry under edge reversal.",
+   design="DESIGN.md section 3 R-XSTATE/R-CROSSENUM/R-CONST/R-STAGES, section 4 C03"),
+ "C04": dict(
+   technique="static analysis: accumulator-shape (parity) analysis over SSA phis, initialisation-order reachability, nil-index creation-site analysis, inclusive-range comparison discipline",
+   text="Decides the shape all six containment evaluators must share - start from the reference bit, toggle only by an exact crossing test, return the accumulator, restart the crosser on gaps, visit every edge including the closing one, take the vertex-model shortcut only on a true endpoint match - plus the initialisation order the pre-checks rely on (origin bit before use, bound before indexing), a non-nil index on every creation path, and inclusive location of the query point's leaf cell.",
+   note="Does not decide that the interior tracker's containsCenter bits are right, nor the tiling clause on concrete cells.",
+   design="DESIGN.md section 3 R-PARITY/R-INITORDER/R-INIT/R-RANGE, section 4 C04"),
+ "C05": dict(
+   technique="static analysis: control-dependence (edge-dominance) checks of the coverer's discard/terminal discipline, enum outcome folding of the cell-relation consumers, symbolic comparison of clamped parameters, loop-cycle rule",
+   text="Decides: the coverer drops a cell only when the region does not intersect it (or an interior covering cannot use it) and makes an interior cell terminal only when the region contains it; children are all examined; results are normalised/denormalised with the coverer's own clamped MinLevel/LevelMod; per-cell levels are clamped to MaxLevel before being aligned to LevelMod; Loop/Polygon ContainsCell/IntersectsCell are one-sidedly safe for Disjoint/Subdivided cells and order boundary test before centre containment; Cap's shared cell helper handles the cell containing the cap centre.",
+   note="Does not decide the geometric correctness of Cap/Rect/Polyline cell predicates beyond the named clause, nor MaxCells behaviour.",
+   design="DESIGN.md section 3 R-COVER/R-CELLREL/R-CYCLE/R-INIT/R-CONST, section 4 C05"),
+ "C09": dict(
+   technique="static analysis: wire-shape extraction (sequence/loop/option/alternative of primitive widths) from encoder and decoder ASTs with inlining, compared for equality; nondeterminism-source scan; self-comparison lint; structural constants",
+   text="Decides the 'writer and reader agree' clause for all 9 codec types and 8 internal pairs: the sequence of primitive fields (width class, loop nesting, optional bound, format alternatives, first-point/other-point alternation) written by each encoder equals the sequence read by its decoder; encoders consult no map order, randomness, time or environment; the cell-centre level test compares si-level with ti-level (no self-comparison); the pi/qi clamp fits the bits the first-point coder writes.",
+   note="Does not decide bit-exact reproduction of coordinates, the format choice, or nth-derivative / zig-zag arithmetic.",
+   design="DESIGN.md section 3 R-WIRE/R-DETERMINISTIC/R-SELFCMP/R-CONST/R-STICKY, section 4 C09"),
+ "C18": dict(
+   technique="static analysis: decision-skeleton comparison of mirrored integrals, band/guard edge-dominance checks, Kahan-summation and clamp shape checks, exact literal table for the triangle-area kernel",
+   text="Narrow claim: the scalar and vector surface integrals walk the same triangle fan with the same vertex order; Polygon.Area and Centroid weight loops by the same sign; Loop.Area consults IsNormalized exactly in the two ambiguous bands with the right polarity; TurningAngle starts canonically, compensates its sum and clamps to +-(2*Pi-4*epsilon); PointArea's thresholds and the per-vertex curvature error are unchanged.",
+   note="Does not decide any numerical clause (values of areas, additivity, accuracy on slivers).",
+   design="DESIGN.md section 3 R-SIBTREE/R-AREASIGN/R-CONST, section 4 C18"),
+ "C19": dict(
+   technique="static analysis: abstract interpretation of the interval source over the finite domain of weak orderings of the operands (order types), exhaustive; component-wise composition check; special-value guard dominance",
+   text="For the comparison-only predicates and constructors of r1.Interval (11) and s1.Interval (14) the function's syntax is interpreted over every weak ordering of its operands and +-Pi and the result is compared with point membership of probes on every operand and in every gap: predicates equal their point-set definition, unions contain both operands, intersections contain all common points and nothing outside both, complements cover the rest, results are valid. This is exhaustive over order types and therefore over all real inputs for this code class. r2.Rect/s2.Rect operations are the same 1-D operation on both components; cap radii that may be the special empty value never enter ChordAngle.Add/Sub unguarded.",
+   note="Assumes operands of s1.Interval lie in [-Pi, Pi]. The point-set specification is written in the checker. Does not decide Expanded, Project, Center, Length, ApproxEqual, chord-angle and remaining cap arithmetic.",
+   design="DESIGN.md section 3 R-ORDER/R-COMPONENT/R-SPECIAL, section 4 C19"),
 }
 
 NOT_APPLICABLE = {
